@@ -2902,6 +2902,33 @@ struct Explorer {
       last_f = k[1];
     }
     (void)started_cmds;
+    // a build that brought the manifest up to date and was followed by the build proper was a successful build of its own:
+    // its last status line shows finished == total as well (the counters start again with the next build)
+    {
+      int cycles = 0;
+      for (auto& c : r.cmds) cycles = max(cycles, c.cycle);
+      vector<size_t> resets;   // index of the first status line of each build after the first
+      for (size_t i = 1; i < cnt.size(); ++i) if (cnt[i][1] <= cnt[i - 1][1]) resets.push_back(i);
+      bool consoles = false;
+      for (auto& c : r.cmds) if (c.console) consoles = true;
+      // (without console commands every finished command has exactly one status line, in the order of the completions)
+      vector<const RunCmd*> fin;
+      for (auto& e : r.events) if (e.kind == Event::kFinish && !r.cmds[e.cmd].unreaped) fin.push_back(&r.cmds[e.cmd]);
+      (void)cycles;
+      if (!consoles && !resets.empty() && fin.size() == cnt.size())
+        for (size_t cy = 0; cy < resets.size(); ++cy) {
+          auto& k = cnt[resets[cy] - 1];
+          // (a restat command that left its outputs alone prunes the plan after its own status line)
+          const RunCmd* last = fin[resets[cy] - 1];
+          if (last->status != 0) break;
+          if (last->spec.restat && !last->wrote) continue;
+          if (k[1] != k[2]) {
+            bad("final-count", "the build that brought the manifest up to date succeeded, and its last status line reads " +
+                to_string(k[1]) + "/" + to_string(k[2]) + " (finished != total)");
+            break;
+          }
+        }
+    }
     if (r.exit_code == 0 && !cnt.empty() && finished_cmds > 0) {
       auto& k = cnt.back();
       // a console command's completion prints no status line: skip when one finished last
